@@ -79,7 +79,8 @@ def _num(d):
     return Fraction(float(d[1])), False
 
 
-def same_digest(a, b):
+def same_digest(a, b, tol=None):
+    tol = TOLREL if tol is None else tol
     if isinstance(a, list) and len(a) == 2 and a[0] in ("q", "f") and isinstance(a[1], str):
         if not (isinstance(b, list) and len(b) == 2 and b[0] in ("q", "f")):
             return False
@@ -87,11 +88,11 @@ def same_digest(a, b):
         vb, eb = _num(b)
         # exact values may differ by the library's denominator cap (Point2D re-rounds every
         # copied coordinate to a denominator <= 1e9), floats by rounding: compare to 1e-9
-        return abs(va - vb) <= TOLREL * max(1, abs(va), abs(vb))
+        return abs(va - vb) <= tol * max(1, abs(va), abs(vb))
     if isinstance(a, dict):
-        return isinstance(b, dict) and a.keys() == b.keys() and all(same_digest(a[k], b[k]) for k in a)
+        return isinstance(b, dict) and a.keys() == b.keys() and all(same_digest(a[k], b[k], tol) for k in a)
     if isinstance(a, list):
-        return isinstance(b, list) and len(a) == len(b) and all(same_digest(x, y) for x, y in zip(a, b))
+        return isinstance(b, list) and len(a) == len(b) and all(same_digest(x, y, tol) for x, y in zip(a, b))
     return a == b
 
 
